@@ -253,7 +253,7 @@ func c16Judge(root, pat string) (detail string, nontrivial, skipped bool) {
 }
 
 func c16Trees(thorough bool) [][]c16Entry {
-	names := []string{"a", "b", "ab", ".a", "*", "a.b", "é"}
+	names := []string{"a", "b", "ab", ".a", "*", "a.b", "é", "\\", "a\\b"}
 	var trees [][]c16Entry
 	trees = append(trees, nil)
 	for i, n1 := range names {
@@ -314,6 +314,32 @@ func c16Patterns(thorough bool) []string {
 	return pats
 }
 
+// c16BuildBig builds the large tree: 12 files a0…a11, .h and 12 directories d0…d11 per level, d1/d1/d1/d1 four levels deep.
+func c16BuildBig(base string) (string, bool) {
+	root := filepath.Join(base, "big")
+	os.RemoveAll(root)
+	ok := true
+	mk := func(dir string) {
+		if os.MkdirAll(dir, 0o755) != nil {
+			ok = false
+		}
+		for i := 0; i < 12; i++ {
+			if os.WriteFile(filepath.Join(dir, fmt.Sprintf("a%d", i)), nil, 0o644) != nil {
+				ok = false
+			}
+		}
+		os.WriteFile(filepath.Join(dir, ".h"), nil, 0o644)
+	}
+	mk(root)
+	for i := 0; i < 12; i++ {
+		mk(filepath.Join(root, fmt.Sprintf("d%d", i)))
+	}
+	mk(filepath.Join(root, "d1", "d1"))
+	mk(filepath.Join(root, "d1", "d1", "d1"))
+	mk(filepath.Join(root, "d1", "d1", "d1", "d1"))
+	return root, ok
+}
+
 func c16Run(w *W) {
 	base := filepath.Join(verifDir, "tmp", fmt.Sprintf("c16-%d", os.Getpid()))
 	if err := os.MkdirAll(base, 0o755); err != nil {
@@ -356,6 +382,30 @@ func c16Run(w *W) {
 			}
 		}
 	}
+	// a large tree: 12 files and 12 directories per level (names above a9 sort before a2), four levels deep
+	if w.Mine() {
+		root, ok := c16BuildBig(base)
+		if ok && os.Chdir(root) == nil {
+			w.Count("states", 1)
+			w.Announce("large tree")
+			for _, p := range []string{"*", "a*", "a?", "a??", "a1*", "a1?", "a[0-9]", "a1[0-9]", "[ad]*", "d*", "d*/", "d*/a*", "d1/*", "*/*", "*/a1?", "*/*/*", "*/*/*/*", "*/*/*/*/*", "d1/d1/d1/d1/*", "d?/d?/d?/d?/a1*", "*/*/*/*/*/*",
+				"d1*/a2", "d[0-9]/.h", "*/.*", "@ROOT@/*", "@ROOT@/d1/*/a1?", "d1//d1///a*", "./d1/./a*", "d1/../a1*", "*1", "*1/", "*1/*1", "?1*"} {
+				w.Count("evaluations", 1)
+				w.Count("large_tree_patterns", 1)
+				d, nt, skipped := c16Judge(root, p)
+				if skipped {
+					continue
+				}
+				w.Count("traces_validated_against_impl", 1)
+				if nt {
+					w.Count("distinct_nontrivial", 1)
+				}
+				if d != "" {
+					w.Violation("", c16Case{[]c16Entry{{"large tree: 12 files a0…a11, .h and 12 directories d0…d11 per level, d1/d1/d1/d1 four levels deep", "dir"}}, p}, d)
+				}
+			}
+		}
+	}
 	os.Chdir("/")
 }
 
@@ -363,7 +413,7 @@ func init() {
 	register(&check{
 		id:    "C16",
 		level: "model_checking",
-		rule: "every tree with ≤ 2 entries over names {a b ab .a * a.b é} × kinds {file, empty dir, dir{a}, dir{.a}, dir{a,b,a.b}, dangling symlink, symlink to a directory} and every 3-entry tree over a reduced kind set, " +
+		rule: "every tree with ≤ 2 entries over names {a b ab .a * a.b é \\ a\\b} × kinds {file, empty dir, dir{a}, dir{.a}, dir{a,b,a.b}, dangling symlink, symlink to a directory} and every 3-entry tree over a reduced kind set, " +
 			"× every pattern ≤ 3 (quick) / 4 (thorough) symbols over {a b * ? [ ] . / \\} plus absolute and multi-level shapes; non-trivial = the model expects at least one path",
 		assume: []string{"Lstat/Stat/ReadDir of the scratch tree are taken as facts; matching, hidden-file rule, directory-only rule and ordering are the model's",
 			"patterns with a component that is not a well-formed pattern (unterminated bracket, trailing backslash) are only required not to panic",
@@ -377,9 +427,19 @@ func init() {
 			base := filepath.Join(os.TempDir(), fmt.Sprintf("c16-replay-%d", os.Getpid()))
 			os.MkdirAll(base, 0o755)
 			defer os.RemoveAll(base)
-			root, err := c16Build(base, c.Tree)
-			if err != nil {
-				return err
+			var root string
+			if len(c.Tree) == 1 && strings.HasPrefix(c.Tree[0].Name, "large tree") {
+				r, ok := c16BuildBig(base)
+				if !ok || os.Chdir(r) != nil {
+					return fmt.Errorf("cannot build the large tree")
+				}
+				root = r
+			} else {
+				r, err := c16Build(base, c.Tree)
+				if err != nil {
+					return err
+				}
+				root = r
 			}
 			defer os.Chdir("/")
 			if d, _, _ := c16Judge(root, c.Pattern); d != "" {
